@@ -1,6 +1,10 @@
 package main
 
-import "fmt"
+import (
+	"fmt"
+	"math/big"
+	"strings"
+)
 
 // Model-enumeration concretisation of a symbolic length/capacity (BV mode, incremental solver):
 // instead of asking "pc ∧ v = k ?" for every k in [0,max] (max+1 queries; 2^20 for a make() capacity), ask the solver
@@ -12,7 +16,12 @@ func (s *Solver) EnumValues(v *Term, max uint64, limit int) (vals []uint64, comp
 	s.define(v) // stays in the path scope; everything below is sent inline so nothing is defined inside the inner scope
 	s.send("(push 1)")
 	defer s.send("(pop 1)")
-	s.send(fmt.Sprintf("(assert (bvule %s %s))", v.ref(), bvLit(max, v.w)))
+	// a fresh constant equal to v: get-value of a constant is a model lookup (evaluating a defined term is ~100x slower)
+	s.enumSeq++
+	ev := fmt.Sprintf("enumv_%d", s.enumSeq)
+	s.send(fmt.Sprintf("(declare-const %s %s)", ev, sortOf(v.w)))
+	s.send(fmt.Sprintf("(assert (= %s %s))", ev, v.ref()))
+	s.send(fmt.Sprintf("(assert (bvule %s %s))", ev, bvLit(max, v.w)))
 	for len(vals) < limit {
 		r := s.check()
 		if r == "unsat" {
@@ -21,14 +30,25 @@ func (s *Solver) EnumValues(v *Term, max uint64, limit int) (vals []uint64, comp
 		if r != "sat" {
 			return vals, false
 		}
-		m := s.Values([]*Term{v})
-		x, ok := m[v.ref()]
-		if !ok {
+		s.send(fmt.Sprintf("(get-value (%s))", ev))
+		l := s.readLine() // ((enumv_N #x....))
+		i := strings.Index(l, "#")
+		if i < 0 {
 			return vals, false
 		}
-		k := x.Uint64()
+		tok := strings.TrimRight(l[i:], ") ")
+		n := new(big.Int)
+		switch {
+		case strings.HasPrefix(tok, "#x"):
+			n.SetString(tok[2:], 16)
+		case strings.HasPrefix(tok, "#b"):
+			n.SetString(tok[2:], 2)
+		default:
+			return vals, false
+		}
+		k := n.Uint64()
 		vals = append(vals, k)
-		s.send(fmt.Sprintf("(assert (not (= %s %s)))", v.ref(), bvLit(k, v.w)))
+		s.send(fmt.Sprintf("(assert (not (= %s %s)))", ev, bvLit(k, v.w)))
 	}
 	return vals, false
 }
@@ -37,7 +57,7 @@ func bvLit(k uint64, w int) string { return fmt.Sprintf("(_ bv%d %d)", k, w) }
 
 // takeValue is take() for "which value does v have", with the feasible set found by model enumeration.
 func (e *Explorer) takeValue(kind string, v *Term, max int, eq func(k int) *Term) int {
-	if e.depth < len(e.vec) || e.sol.resetMode || v.w <= 0 || v.isConst() {
+	if e.depth < len(e.vec) || e.sol.resetMode || v.w <= 0 || v.w > 64 || v.isConst() || max <= 256 {
 		return e.take(kind, max+1, eq)
 	}
 	vals, complete := e.sol.EnumValues(v, uint64(max), 64)
